@@ -66,7 +66,7 @@ def build_coq(targets=None, timeout=2400):
             rc, out = sh(["coq_makefile", "-f", "_CoqProject", "-o", "Makefile"], 120, cwd=COQ)
             if rc != 0:
                 return rc, out
-        cmd = ["make", "-k", "-j16"]
+        cmd = ["make", "-k", "-j16", "COQC=timeout 900 coqc"]
         if targets:
             cmd += targets
         rc, out = sh(cmd, timeout, cwd=COQ)
